@@ -37,7 +37,7 @@ class SimCrash(BaseException):
 
 
 # ------------------------------------------------------------------------------------------ tree
-def build_tree(root, tree):
+def build_tree(root, tree, uniform_mtime=None):
     os.makedirs(root)
     for ent in tree:
         kind, rel = ent[0], ent[1]
@@ -53,6 +53,10 @@ def build_tree(root, tree):
         elif kind == 'l':
             os.makedirs(os.path.dirname(p), exist_ok=True)
             os.symlink(ent[2], p)
+    if uniform_mtime is not None:
+        for ent in tree:
+            if ent[0] == 'f':
+                os.utime(os.path.join(root, ent[1]), (uniform_mtime, uniform_mtime))
 
 
 def snapshot(root):
